@@ -5,6 +5,9 @@
 From PowHsm Require Import Model.Bringup.
 From PowHsm Require Import Proofs.TraceLogic.
 From PowHsm Require Import Proofs.C09.
+From PowHsm Require Import Gen.Src.
+From PowHsm Require Import Proofs.SrcEquivVersion.
+From PowHsm Require Import Proofs.SrcLiftC09.
 Open Scope N_scope.
 
 (* version compatibility: same major, firmware minor.patch lexicographically not newer than the manager's *)
@@ -34,7 +37,7 @@ Proof. exact (@unlock_at_most_once). Qed.
 (* an unlock APDU is preceded, in order, by: connection, onboarded answer, bootloader mode answer, supported UI version, correct echo, and at least MIN_AVAILABLE_RETRIES retries *)
 Theorem C09_unlock_only_when_safe :
   forall (k : dongle_kind) (w : world) (n1 : list event) (u : event) (n2 : list event),
-         new_events w (snd (initialize_device k w)) = n1 ++ u :: n2 ->
+         new_events w (snd (initialize_device k w)) = (n1 ++ u :: n2)%list ->
          is_unlock k u = true -> InOrder (safe_pre k) n1.
 Proof. exact (@unlock_only_when_safe). Qed.
 
@@ -108,5 +111,18 @@ Theorem C09_serves_unlock_count :
   forall (k : dongle_kind) (w w' : world),
          initialize_device k w = (Ok tt, w') -> (count_unlock k (new_events w w') <= 1)%nat.
 Proof. exact (@serves_unlock_count). Qed.
+
+(* TIE BY TRANSLATION: HSM2FirmwareVersion.supports of ledger/version.py, as regenerated from the source text, computes the model's supports *)
+Theorem C09_source_supports_is_model :
+  forall mw fw : N * N * N,
+         src_HSM2FirmwareVersion__supports (ver_obj mw) (ver_obj fw) = POk (VBool (supports mw fw)).
+Proof. exact (@src_version_supports_ok). Qed.
+
+(* hence the source's compatibility test holds exactly for equal majors and a firmware minor.patch not newer than the manager's *)
+Theorem C09_source_supports_true_iff :
+  forall M m p M' m' p' : N,
+         src_HSM2FirmwareVersion__supports (ver_obj (M, m, p)) (ver_obj (M', m', p')) =
+         POk (VBool true) <-> M' = M /\ (m' < m \/ m' = m /\ p' <= p).
+Proof. exact (@src_supports_true_iff). Qed.
 
 Example C09_nonvacuous : True. Proof. exact I. Qed. (* concrete bring-ups closed by vm_compute in Proofs/C09.v: Ledger bootloader reaching unlock and serving, retries = 1 stopping with no unlock APDU, SGX, signer 5.4.2 refused, PIN change stopping *)
